@@ -228,5 +228,18 @@ def main(argv=None) -> int:
     return engine.run_check(prop, tier, seed, a.runs, shrink_enabled=not a.no_shrink)
 
 
+def _guarded_main() -> int:
+    """An exception of the harness itself must never look like a verdict: exit 2, not 1."""
+    try:
+        return main()
+    except SystemExit:
+        raise
+    except BaseException as e:  # noqa: BLE001
+        import traceback
+
+        print(f"HARNESS-ERROR uncaught {type(e).__name__}: {e}\n{traceback.format_exc()[-3000:]}")
+        return 2
+
+
 if __name__ == "__main__":
-    sys.exit(main())
+    sys.exit(_guarded_main())
